@@ -54,12 +54,12 @@ def cadd (u v : α × α) : α × α := (u.1 + v.1, u.2 + v.2)
 def csub (u v : α × α) : α × α := (u.1 - v.1, u.2 - v.2)
 def cneg (u : α × α) : α × α := (-u.1, -u.2)
 def cmul (u v : α × α) : α × α := (u.1 * v.1 - u.2 * v.2, u.1 * v.2 + u.2 * v.1)
-/-- `T * complex` -/
-def smul (k : α) (u : α × α) : α × α := (k * u.1, k * u.2)
+/-- `T * complex` (libstdc++: `r = u; r *= k`, i.e. the components are the LEFT factors) -/
+def smul (k : α) (u : α × α) : α × α := (u.1 * k, u.2 * k)
 /-- `complex / T` -/
 def cdivs (u : α × α) (k : α) : α × α := (u.1 / k, u.2 / k)
-/-- `T + complex` -/
-def sadd (k : α) (u : α × α) : α × α := (k + u.1, u.2)
+/-- `T + complex` (libstdc++: `r = u; r += k`) -/
+def sadd (k : α) (u : α × α) : α × α := (u.1 + k, u.2)
 /-- `T / complex` = `complex (k, 0) / u` -/
 def sdivc (k : α) (u : α × α) : α × α :=
   let n := u.1 * u.1 + u.2 * u.2
